@@ -25,14 +25,16 @@
        drift  notes that are not violations (permitted alternatives taken, stricter limits).  *)
 EXTENDS HttpFraming, TraceBatch
 
-VARIABLES tid, l, stage, s, s2, bad, devs, drift
-tvars == <<tid, l, stage, s, s2, bad, devs, drift>>
+VARIABLES tid, l, stage, s, s2, s3, bad, devs, drift
+tvars == <<tid, l, stage, s, s2, s3, bad, devs, drift>>
 
 Stream(t) == Batch[t].stream
 TCfg(t) == Cfg(t)
 RefCfg(c) == [mode |-> c.mode, lax |-> c.lax, maxLine |-> c.maxLine, maxField |-> c.maxField,
               maxHeaders |-> c.maxHeaders, untilEof |-> c.untilEof, withBody |-> c.withBody, mutant |-> "",
-              devHeadSkip |-> FALSE]
+              devHeadSkip |-> FALSE, declineUpgrade |-> FALSE]
+\* reading of a server connection whose handler declines every upgrade offer (the harness's handler does)
+DeclineCfg(c) == [RefCfg(c) EXCEPT !.declineUpgrade = TRUE]
 \* second reading with the HEAD deviation enabled: used only when the strict reading does not explain
 \* an execution, to name the deviation exactly (known_findings protocol, DESIGN 2.5)
 DevCfg(c) == [RefCfg(c) EXCEPT !.devHeadSkip = TRUE]
@@ -87,6 +89,12 @@ MsgsClause(st, R, E, i, cfg, q, n, part) ==
                     \* CONNECT: everything after the head belongs to the tunnel, not to HTTP
                     IF IsPrefix(im.body, Slice(q, st.tailFrom, n)) THEN MsgsClause(st, R, E, i + 1, cfg, q, n, part)
                     ELSE "TunnelBytes"
+                ELSE IF cfg.bodyOpaque THEN
+                    \* auto-decompression on: the payload holds DECODED bytes.  The codecs are black boxes; the
+                    \* harness supplies the plain text it compressed (cfg.expect, may be shorter than the message
+                    \* list); beyond that only the agreement of all segmentations is required (GroupClause)
+                    IF ImplComplete(im) /\ i <= Len(cfg.expect) /\ im.body # cfg.expect[i] THEN "DecodedBodyMismatch"
+                    ELSE MsgsClause(st, R, E, i + 1, cfg, q, n, part)
                 ELSE IF ImplComplete(im) THEN
                     IF im.body # rm.body THEN "BodyMismatch"
                     ELSE IF rm.kind = "chunked" /\ im.chunksKnown /\ im.chunks # rm.chunks THEN "ChunkBoundaries"
@@ -97,7 +105,7 @@ MsgsClause(st, R, E, i, cfg, q, n, part) ==
              LET h == HeadClause(st.cur, im, cfg)
              IN IF h # "" THEN h
                 ELSE IF ImplComplete(im) THEN "CompletedPartialMessage"
-                ELSE IF ~IsPrefix(im.body, st.cur.body) THEN "BodyMismatch"
+                ELSE IF ~cfg.bodyOpaque /\ ~IsPrefix(im.body, st.cur.body) THEN "BodyMismatch"
                 ELSE MsgsClause(st, R, E, i + 1, cfg, q, n, part)
          ELSE IF st.phase \in {"closed", "undecided"} THEN ""   \* bytes after a closing message are not processed by a
                                                                 \* connection; beyond an undecided point nothing is compared
@@ -122,7 +130,7 @@ PendingReject(st, q, n) ==
     /\ ~HasBlockEnd(q, st.rejectAt, n)        \* an empty line after the terminator of the rejected line
 
 (* C10: work and retention bounds on the instrumented calls of this run.
-   call = <<bytesInCall, retainedBefore, tailAfter, linesAfter, work, raised>>
+   call = <<bytesInCall, retainedBefore, tailAfter, linesAfter, work, raised, nLinesAfter>>
      work   Python line events executed inside http_parser.py during the call (sys.monitoring)
      tail   bytes of the incomplete line kept for the next call, lines = bytes of the complete
             lines of a header / trailer block that is not finished yet
@@ -142,6 +150,7 @@ CallsClause(e, cfg) ==
                /\ \/ e.calls[i][3] > Max2(Max2(cfg.maxLine, cfg.maxField) + 1 + e.calls[i][1], e.calls[i][2])
                   \/ e.calls[i][3] + e.calls[i][4] >
                         Max2(cfg.maxLine + cfg.maxHeaders * (cfg.maxField + 2) + e.calls[i][1], e.calls[i][2])
+                  \/ e.calls[i][7] > cfg.maxHeaders + 1          \* complete lines of an unfinished block that are kept
     THEN "RetentionBound"
     ELSE IF e.hang THEN "Hang"
     ELSE ""
@@ -215,7 +224,8 @@ JudgeParse(st, q, n, e, cfg) ==
 \* parse the bytes the server wrote with the reference in strict response mode;
 \* heads[i] = the i-th response answers a HEAD request (no body)
 WCfg(head) == [mode |-> "response", lax |-> FALSE, maxLine |-> 65536, maxField |-> 65536, maxHeaders |-> 1000,
-               untilEof |-> FALSE, withBody |-> ~head, mutant |-> "", devHeadSkip |-> FALSE]
+               untilEof |-> FALSE, withBody |-> ~head, mutant |-> "", devHeadSkip |-> FALSE,
+               declineUpgrade |-> FALSE]
 RECURSIVE RunOneMsg(_, _, _, _, _)
 RunOneMsg(st, w, n, c, k) ==     \* run until message k is complete or the reader is stuck
     IF Stuck(st) \/ Len(st.msgs) >= k THEN st ELSE RunOneMsg(Step(st, w, n, c), w, n, c, k)
@@ -302,14 +312,16 @@ JudgeConn(st, q, n, e, cfg) ==
             ELSE res("RequestNotDispatched", <<>>, <<>>)
         ELSE IF Len(codes) < Len(R) /\ ~(st.phase = "tunnel") THEN
             IF Len(st.soft) > 0 THEN res("", <<>>, <<"SoftZone">>) ELSE res("RequestNotAnswered", <<>>, <<>>)
+        ELSE IF Len(codes) > Len(D) THEN res("ExtraResponse", <<>>, <<>>)      \* every request is answered exactly once
         ELSE res("", devNames, altNames)
 
 Judge1(st, q, n, e, cfg) ==
     IF e.kind = "conn" THEN JudgeConn(st, q, n, e, cfg) ELSE JudgeParse(st, q, n, e, cfg)   \* "parse" and "client"
 \* st = strict reading, st2 = reading with the HEAD deviation (only differs if the stream has a HEAD
 \* request that announces a body)
-Judge(st, st2, q, n, e, cfg) ==
-    LET j == Judge1(st, q, n, e, cfg)
+Judge(st0, st2, st3, q, n, e, cfg) ==
+    LET st == IF e.kind = "conn" /\ st0.upOffer THEN st3 ELSE st0      \* the harness's handler declines every upgrade offer
+        j == Judge1(st, q, n, e, cfg)
     IN IF j.bad = "" \/ ~st.headBody THEN j
        ELSE LET k == Judge1(st2, q, n, e, cfg)
             IN IF k.bad = "" THEN [k EXCEPT !.devs = <<"HeadRequestBodySkipped">> \o k.devs] ELSE j
@@ -369,7 +381,7 @@ RunK(st, q, n, c, k) == IF k = 0 \/ Stuck(st) THEN st ELSE RunK(Step(st, q, n, c
 
 TInit ==
     /\ tid \in 1..NTraces
-    /\ l = 0 /\ stage = "ref" /\ s = Init0 /\ s2 = Init0 /\ bad = "" /\ devs = <<>> /\ drift = <<>>
+    /\ l = 0 /\ stage = "ref" /\ s = Init0 /\ s2 = Init0 /\ s3 = Init0 /\ bad = "" /\ devs = <<>> /\ drift = <<>>
     /\ Verdict(tid, 0, "", <<>>)
 
 TNext ==
@@ -379,31 +391,36 @@ TNext ==
            c == TCfg(tid)
        IN
        \/ /\ stage = "ref"
-          /\ IF Stuck(s) THEN stage' = (IF s.headBody THEN "ref2" ELSE "judge") /\ s' = s
+          /\ IF Stuck(s) THEN stage' = (IF s.headBody THEN "ref2" ELSE IF s.upOffer THEN "ref3" ELSE "judge") /\ s' = s
              ELSE stage' = "ref" /\ s' = RunK(s, q, n, RefCfg(c), StepsPerState)
-          /\ UNCHANGED <<tid, l, s2, bad, devs, drift>>
+          /\ UNCHANGED <<tid, l, s2, s3, bad, devs, drift>>
           /\ Verdict(tid, 0, "", <<devs, drift>>)
        \/ /\ stage = "ref2"
-          /\ IF Stuck(s2) THEN stage' = "judge" /\ s2' = s2
+          /\ IF Stuck(s2) THEN stage' = (IF s.upOffer THEN "ref3" ELSE "judge") /\ s2' = s2
              ELSE stage' = "ref2" /\ s2' = RunK(s2, q, n, DevCfg(c), StepsPerState)
-          /\ UNCHANGED <<tid, l, s, bad, devs, drift>>
+          /\ UNCHANGED <<tid, l, s, s3, bad, devs, drift>>
+          /\ Verdict(tid, 0, "", <<devs, drift>>)
+       \/ /\ stage = "ref3"
+          /\ IF Stuck(s3) THEN stage' = "judge" /\ s3' = s3
+             ELSE stage' = "ref3" /\ s3' = RunK(s3, q, n, DeclineCfg(c), StepsPerState)
+          /\ UNCHANGED <<tid, l, s, s2, bad, devs, drift>>
           /\ Verdict(tid, 0, "", <<devs, drift>>)
        \/ /\ stage = "judge" /\ l < NEvents(tid)
           /\ LET e == Events(tid)[l + 1]
-                 j == Judge(s, s2, q, n, e, c)
+                 j == Judge(s, s2, s3, q, n, e, c)
                  d2 == devs \o [i \in 1..Len(j.devs) |-> <<l + 1, j.devs[i]>>]
                  f2 == IF Len(drift) < 6 THEN drift \o [i \in 1..Len(j.drift) |-> <<l + 1, j.drift[i]>>] ELSE drift
                  l2 == IF j.bad = "" THEN l + 1 ELSE l
              IN /\ bad' = j.bad /\ devs' = d2 /\ drift' = f2 /\ l' = l2
                 /\ Verdict(tid, l2, j.bad, <<d2, f2>>)
-          /\ UNCHANGED <<tid, stage, s, s2>>
+          /\ UNCHANGED <<tid, stage, s, s2, s3>>
        \/ /\ stage = "judge" /\ l = NEvents(tid)
           /\ LET g == GroupClause(s, q, n, Events(tid), c)
                  d2 == devs \o [i \in 1..Len(g.devs) |-> <<0, g.devs[i]>>]
              IN /\ bad' = g.bad /\ devs' = d2
                 /\ Verdict(tid, IF g.bad = "" THEN l ELSE 0, g.bad, <<d2, drift>>)
           /\ stage' = "end"
-          /\ UNCHANGED <<tid, l, s, s2, drift>>
+          /\ UNCHANGED <<tid, l, s, s2, s3, drift>>
 
 TSpec == TInit /\ [][TNext]_tvars
 
